@@ -2,6 +2,7 @@
 import json
 from .engine import rule, Result
 from .mir import *
+from . import pathsem
 from .sym import SymEval, Lin
 from . import boolfn
 from .rules_tables import view_kind_of, kind_str, trait_args, impl_loc
@@ -572,39 +573,62 @@ def e2_archetypes_eq(prog):
         r.viol('E2', 'missing', '-', 'PartialEq for Archetypes not found')
         return r
     f = fs[0]
-    body = f.body
     r.inst('Archetypes::eq')
-    lens = [(b, t) for b, t in body.calls(lambda c: c['name'] == 'len' and ('RawTable' in c['path'] or 'hashbrown' in c['path']))]
-    bf, tt = boolfn.bool_table(prog, f)
-    if tt is None:
-        r.viol('E2', 'not-extractable', f.loc(), 'cannot tabulate Archetypes::eq')
+    E = pathsem.analyse(prog, f)
+    rets = [p for p in E.paths if p.ended == 'return']
+    done = set()
+
+    def once(k, msg):
+        if k not in done:
+            done.add(k)
+            r.viol('E2', k, f.loc(), msg)
+    if E.truncated or not rets or any(p.ret not in (pathsem.TRUE, pathsem.FALSE) for p in rets):
+        once('not-extractable', 'cannot tabulate Archetypes::eq')
         return r
-    keys, table = tt
-    cmps = [k for k in keys if bf.atoms[k].kind == 'cmp']
-    alls = [k for k in keys if bf.atoms[k].kind == 'call' and bf.atoms[k].term['f']['name'] in ('all', 'any', 'eq')]
-    if len(cmps) != 1 or len(lens) < 2:
-        r.viol('E2', 'no-size-comparison', f.loc(), 'the number of archetypes of both worlds is not compared')
-    else:
-        rv = bf.atoms[cmps[0]].term
-        if rv['op'] not in ('Eq', 'Ne'):
-            r.viol('E2', 'size-comparison-not-equality', f.loc(),
-                   'archetype counts are compared with %s instead of equality: a world with extra (empty) archetypes compares equal in one direction only (asymmetric)' % rv['op'])
-    if len(alls) != 1:
-        r.viol('E2', 'no-element-comparison', f.loc(), 'archetypes are not compared pairwise')
-    if len(cmps) == 1 and len(alls) == 1 and bf.atoms[cmps[0]].term['op'] in ('Eq', 'Ne'):
-        ci, ai = keys.index(cmps[0]), keys.index(alls[0])
-        eqop = bf.atoms[cmps[0]].term['op'] == 'Eq'
-        for vals, res in table.items():
-            same_size = vals[ci] if eqop else not vals[ci]
-            if res != (same_size and vals[ai]):
-                r.viol('E2', 'wrong-combination', f.loc(), 'Archetypes::eq must be (same count) && (all archetypes match); got %s for %s' % (res, vals))
-                break
-    # the `all` closure: lookup in other by identifier bytes + component_eq
-    cl = f.closures()
-    ok_lookup = any(g.body.calls(lambda c: c['name'] in ('get', 'find', 'get_by_identifier', 'get_with_foreign')) for g in cl)
-    ok_eq = any(g.body.calls(lambda c: c['name'] == 'component_eq') for g in cl)
-    if not ok_lookup or not ok_eq:
-        r.viol('E2', 'element-comparison-shape', f.loc(), 'per-archetype comparison must look the archetype up in the other world and call component_eq')
+    S = pathsem.strip_refs
+    ops = {1: ('p', 1, f.body.local_name(1) or 'self'), 2: ('p', 2, f.body.local_name(2) or 'other')}
+
+    def table_len(t, side):
+        return isinstance(t, tuple) and t[0] == 'call' and t[1].endswith('::len') and pathsem.mentions(t, lambda u: u == ops[side]) and not pathsem.mentions(t, lambda u: u == ops[3 - side])
+
+    def size_atom(a):
+        return a[0] == 'bin' and a[1] in ('Eq', 'Lt') and ((table_len(a[2], 1) and table_len(a[3], 2)) or (table_len(a[2], 2) and table_len(a[3], 1)))
+    n_true = 0
+    n_elem = 0
+    for p in rets:
+        sizes = [(a, v) for a, v in p.conds if size_atom(a)]
+        scanned = []
+        for a, v in p.conds:
+            if isinstance(a, tuple) and ((a[0] == 'next' and v == 1) or (a[0] == 'nonempty' and v is True)):
+                root = S(pathsem.iter_chain(a[1])[0])
+                for side in (1, 2):
+                    if root == ops[side] or pathsem.mentions(root, lambda u: u == ops[side]):
+                        scanned.append((('elem', a[1]) + tuple(a[2:3] if a[0] == 'next' else ()), side))
+        if p.ret == pathsem.TRUE:
+            n_true += 1
+            if not sizes:
+                once('no-size-comparison', 'the number of archetypes of both worlds is not compared')
+            elif not any(a[1] == 'Eq' and v is True for a, v in sizes):
+                if any(a[1] == 'Lt' for a, v in sizes):
+                    once('size-comparison-not-equality', 'archetype counts are compared with an inequality instead of equality: a world with extra (empty) archetypes compares equal in one direction only (asymmetric)')
+                else:
+                    once('wrong-combination', 'Archetypes::eq must be (same count) && (all archetypes match): a path returns true with differing counts')
+            for e, side in scanned:
+                n_elem += 1
+                found = [g for g in p.calls(lambda g: g['name'] in ('get', 'find', 'get_by_identifier', 'get_with_foreign') and S(g['vals'][0]) == ops[3 - side]
+                                            and pathsem.mentions(g['args'][1], lambda u: u[0] == 'call' and u[1].endswith('::identifier') and S(u[2][0]) == e))
+                         if p.lookup(('discr', g['ret'])) == 1]
+                if not found:
+                    once('element-comparison-shape', 'per-archetype comparison must look the archetype up in the other world (by its identifier) and call component_eq: a path returns true for an archetype without a counterpart')
+                    continue
+                pay = ('f', ('down', found[0]['ret'], 'Some', 1), 0, 'core::option::Option')
+                ceq = [c for c in p.calls(lambda c: c['name'] == 'component_eq') if {S(c['vals'][0]), S(c['vals'][1])} == {e, pay} and p.lookup(c['ret']) is True]
+                if not ceq:
+                    once('wrong-combination', 'Archetypes::eq returns true on a path where an archetype\'s rows were not found equal to its counterpart\'s (component_eq)')
+    if not n_true:
+        once('not-extractable', 'Archetypes::eq never returns true')
+    if not n_elem:
+        once('no-element-comparison', 'archetypes are not compared pairwise')
     return r
 
 
